@@ -192,3 +192,46 @@ package proxy
 //@   props C07
 //@   ensures @lcm_reported: result1 == nil && result0 != nil && s.shardCountConfig.Mode == config.ShardCountLCM &&
 //@            !common.IsRequestTranslationDisabled(ctx) ==> result0.HistoryShardCount == s.lcmParameters.LCM
+
+// ---------------------------------------------------------------------------------------------
+// Server wiring (C13 direction, C14 direction, C15 policy attached on both transports, C19 TLS builder used).
+// ---------------------------------------------------------------------------------------------
+
+//@ extern pure (collect.StaticBiMap).Len
+//@ extern pure (collect.StaticBiMap).AsMap
+//@ extern pure (collect.StaticBiMap).Inverse
+//@ extern pure (config.SearchAttributeTranslation).LenNamespaces
+//@ extern pure (config.SearchAttributeTranslation).FlattenMaps
+//@ extern pure (config.SearchAttributeTranslation).Inverse
+//@ extern quiet prometheus.WithLabelsFromContext
+//@ extern quiet (*prometheus.ServerMetrics).UnaryServerInterceptor
+//@ extern quiet (*prometheus.ServerMetrics).StreamServerInterceptor
+//@ extern quiet interceptor.NewNamespaceNameTranslator
+//@ extern quiet interceptor.NewSearchAttributeTranslator
+//@ extern quiet interceptor.NewTranslationInterceptor
+//@ extern quiet grpc.ChainUnaryInterceptor
+//@ extern quiet grpc.ChainStreamInterceptor
+//@ extern quiet grpc.Creds
+//@ extern quiet credentials.NewTLS
+
+// fromPolicy: the interceptor enforces exactly the policy's two allow-lists
+//@ pred fromPolicy(a *interceptor.AccessControlInterceptor, pol *config.ACLPolicy) =
+//@     (forall s string :: { s in a.adminServiceAccess.allowedMap } auth.allowedIn(a.adminServiceAccess, s) <==>
+//@        (len(pol.AllowedMethods.AdminService) == 0 || exists k int :: 0 <= k && k < len(pol.AllowedMethods.AdminService) && pol.AllowedMethods.AdminService[k] == s)) &&
+//@     (forall s string :: { s in a.namespaceAccess.allowedMap } auth.allowedIn(a.namespaceAccess, s) <==>
+//@        (len(pol.AllowedNamespaces) == 0 || exists k int :: 0 <= k && k < len(pol.AllowedNamespaces) && pol.AllowedNamespaces[k] == s))
+
+// Whenever the interceptor chains are handed to gRPC: with a policy configured the last unary and the last stream
+// interceptor are the access-control interceptor built from that policy (hence after translation); the namespace
+// and search-attribute translators get the configured maps for requests and their inverses for responses; the
+// TLS credentials come from GetServerTLSConfig applied to the given TLS configuration.
+//@ contract makeServerOptions
+//@   props C15 C16 C13 C14 C19
+//@   panics start-up rejection of an unsupported configuration (several namespaces with search-attribute mappings)
+//@   callpre NewNamespaceNameTranslator: @ns_direction: $reqMap == c.nsTranslations.AsMap() && $respMap == c.nsTranslations.Inverse().AsMap()
+//@   callpre NewSearchAttributeTranslator: @sa_direction: $reqMap == c.saTranslations.FlattenMaps() && $respMap == c.saTranslations.Inverse().FlattenMaps()
+//@   callpre ChainUnaryInterceptor: @acl_last: c.aclPolicy != nil ==> len($interceptors) >= 1 &&
+//@        exists a *interceptor.AccessControlInterceptor :: a != nil && $interceptors[len($interceptors) - 1] == a.Intercept && fromPolicy(a, c.aclPolicy)
+//@   callpre ChainStreamInterceptor: @acl_last: c.aclPolicy != nil ==> len($interceptors) >= 1 &&
+//@        exists a *interceptor.AccessControlInterceptor :: a != nil && $interceptors[len($interceptors) - 1] == a.StreamIntercept && fromPolicy(a, c.aclPolicy)
+//@   callpre GetServerTLSConfig: @tls_builder: $serverConfig == tlsConfig
